@@ -69,7 +69,10 @@ pub async fn end_of_workload(h: &mut Hyb) {
                                 hist::violation("C09", "claimed-but-unloadable", format!("the disk tier claims key {k}; loading from the recorded position returns key {key}"), &[]);
                             }
                             Ok(foyer::Load::Miss) | Ok(foyer::Load::Throttled) => {
-                                hist::violation("C09", "claimed-but-unloadable", format!("the disk tier still claims to hold key {k} (may_contains) after everything has been flushed, but loading it from the recorded position misses: its block was reclaimed or rewritten while it still backed the entry"), &[]);
+                                // classification aid: was a re-insertion of this key's entry dropped by the flusher?
+                                let hsh = crate::hybscn::hash_of(h.case.get("hmode") as u8, k);
+                                let shed = hist::with_events(|evs| evs.iter().any(|e| e.kind == "shed_reinsertion" && e.a == hsh));
+                                hist::violation("C09", "claimed-but-unloadable", format!("the disk tier still claims to hold key {k} (may_contains) after everything has been flushed, but loading it from the recorded position misses: its block was reclaimed or rewritten while it still backed the entry"), &[("reinsertion_of_key_was_shed", shed.to_string())]);
                             }
                             Err(e) => hist::violation("C09", "claimed-but-unloadable", format!("load of claimed key {k} failed: {e}"), &[]),
                         }
